@@ -14,6 +14,8 @@
                  [a |-> "we", who]                      ... left
                  [a |-> "rd", who, t, pos, val]         target t: __getitem__ returned val
        final   the cells of every target after everything
+       obs     "events" (instrumented targets) | "final" (plain ndarray targets: ev is empty, only the
+               final content and the returned arrays are judged)
        retc    (ret) the computed content of the returned arrays, one per source
    kind = "npy":   to_npy_stack + from_npy_stack of an id array:  shape, chunks, axis (1-based),
        o = [shape, chunks, cells] as read back.
@@ -52,7 +54,9 @@ SourceCells(call, q) == [j \in 1..Size(call.src[q].shape) |-> Base(call, q) + j]
 StoreBad(r) ==
   IF r.raised # "" THEN {"UnexpectedRaise"}
   ELSE IF ~WellFormed(r.call) THEN {"MalformedTrace"}
-  ELSE LET w == Walk(r, ExpectedAll(r.call), 1, S0(r.call), ~r.lazy)
+  ELSE LET ex == TLCEval(ExpectedAll(r.call))      \* evaluated once per record
+           w  == IF r.obs = "final" THEN Cl("FinalContent", r.final = ex)
+                 ELSE Walk(r, ex, 1, TLCEval(S0(r.call)), ~r.lazy)
        IN IF w # {} THEN w
           ELSE Cl("ReturnedContent", r.ret => r.retc = [q \in 1..NSrc(r.call) |-> SourceCells(r.call, q)])
 
@@ -60,9 +64,18 @@ NpyBad(r) ==
   IF r.raised # "" THEN {"UnexpectedRaise"}
   ELSE NpyRoundTripBad(r.shape, r.chunks, r.axis, r.o)
 
-Bad(r) == CASE r.kind = "store" -> StoreBad(r)
-            [] r.kind = "npy"   -> NpyBad(r)
-            [] OTHER            -> {"MalformedTrace"}
+\* TLC wraps long printed lines: report the first failing clause (in this order) and "More"
+Order == <<"UnexpectedRaise", "MalformedTrace", "OutOfBounds", "NothingBeforeCompute", "InRegion", "Values", "WriteOnce",
+           "NoOverlap", "MutualExclusion", "HoldsLock", "LockFree", "ReleaseByHolder", "LoadAfterStore", "LoadedValue",
+           "StoredOnReturn", "StoredOnCompute", "AllWritten", "FinalContent", "LockReleased", "ReturnedContent",
+           "Shape", "Content", "LazyChunks", "AxisChunks", "ValidChunks">>
+Trim(b) == IF Cardinality(b) <= 1 THEN b
+           ELSE LET i == CHOOSE i \in DOMAIN Order : Order[i] \in b /\ \A j \in 1..(i - 1) : Order[j] \notin b
+                IN {Order[i], "More"}
+
+Bad(r) == Trim(CASE r.kind = "store" -> StoreBad(r)
+                 [] r.kind = "npy"   -> NpyBad(r)
+                 [] OTHER            -> {"MalformedTrace"})
 
 Init == TInit
 Next == TNext(Bad)
